@@ -204,16 +204,21 @@ impl C17 {
                     }
                     let matched: Option<String> = (|| {
                         if a.is_input {
-                            let (i0, o0) = (bal(&f, &u1_in), bal(&f, &v1_out));
+                            // "consumed completely" is read off the vaults: what arrives is the amount less its transfer fee
+                            let epoch = rt::with_ctx(|cx| cx.clock.epoch);
+                            let (mint_in, mint_mid) = (if a.a_to_b_one { lg.s1.mint_a } else { lg.s1.mint_b }, in_mint_two);
+                            let v1_in = if a.a_to_b_one { lg.s1.vault_a } else { lg.s1.vault_b };
+                            let net = |m: &Pubkey, x: u64| (x - crate::world::transfer_fee_of(pre, m, epoch, x).min(x)) as i128;
+                            let (i0, o0) = (bal(&f, &v1_in), bal(&f, &v1_out));
                             let r1 = run(&mut f, ix::swap_v2(&lg.sa1, &SwapArgs { amount: a.amount, other_amount_threshold: 0, sqrt_price_limit: a.limit_one, amount_specified_is_input: true, a_to_b: a.a_to_b_one }, &[]));
-                            if !r1.ok || i0 - bal(&f, &u1_in) != a.amount as i128 {
+                            if !r1.ok || bal(&f, &v1_in) - i0 != net(&mint_in, a.amount) {
                                 return None;
                             }
                             let g = u64::try_from(o0 - bal(&f, &v1_out)).ok().filter(|g| *g > 0)?;
                             fund(&mut f, &u2_in);
-                            let i2 = bal(&f, &u2_in);
+                            let i2 = bal(&f, &v2_in);
                             let r2 = run(&mut f, ix::swap_v2(&lg.sa2, &SwapArgs { amount: g, other_amount_threshold: 0, sqrt_price_limit: a.limit_two, amount_specified_is_input: true, a_to_b: a.a_to_b_two }, &[]));
-                            if !r2.ok || i2 - bal(&f, &u2_in) != g as i128 {
+                            if !r2.ok || bal(&f, &v2_in) - i2 != net(&mint_mid, g) {
                                 return None;
                             }
                             Some(format!("exact-in {}: leg one pays out {} and leg two, sent those {}, consumes them completely", a.amount, g, g))
